@@ -63,7 +63,7 @@ func (impl Implementation) Dgels(trans blas.Transpose, m, n, nrhs int, a []float
 
 	// Quick return if possible.
 	if mn == 0 || nrhs == 0 {
-		work[0] = 1
+		work[0] = float64(max(1, minwrk))
 		if lwork == -1 {
 			return true
 		}
